@@ -443,6 +443,7 @@ def goMethodRun (name : Bytes) (recv : Val) (args : List V) : GoOut :=
   else if name == b!"PtrName" then .ok (.str b!"ptr", none)
   else if name == b!"Fail" then .error "method failed"
   else if name == b!"Sum" then .ok (.int ((intArgs args).foldl (· + ·) 0), none)
+  else if name == b!"String" then (match recv with | .stringer _ t => .ok (.str t, none) | _ => .error "no such method")
   else .error "no such method"
 
 /-- the argument-count rule, with the implicit context argument and the variadic exception -/
@@ -486,6 +487,7 @@ def goMethodOf (v : Val) (name : Bytes) : Option (Bool × GoSig) :=
     else none
   | .ptr (.struct tn _ _) => if tn == b!"main.VS1" then (vs1Methods.lookup name).map fun (_, sig) => (false, sig) else none
   | .nilptr => (vs1Methods.lookup name).map fun (ptrOnly, sig) => (!ptrOnly, sig)   -- value method through nil: yields nil
+  | .stringer _ _ => if name == b!"String" then some (false, {}) else none   -- a method of a named string / int type
   | _ => none
 
 /-! ### one step of a dotted / subscripted name (`variableResolver.resolve`, after the pointer was followed) -/
